@@ -3,7 +3,9 @@
 //!   * `proc.compare`: `RbModel.Proc.Compile.compile p` = the real instruction list, instruction for instruction
 //!     (positions, label names, resolved addresses, parameter names);
 //!   * `proc.run`: `RbModel.Proc.Vm.run` on the model-compiled code = real outcome and stdout;
-//!   * `proc.ref`: the big-step reference semantics `RbModel.Proc.Ref.run` = real outcome and stdout.
+//!   * `proc.ref`: the big-step reference semantics `RbModel.Proc.Ref.run` = real outcome and stdout;
+//!   * `proc.wf`: the premise checker `RbModel.Proc.progWfB` of the simulation theorem `Proc.compile_correct`
+//!     (`lean/Thm/ProcSim.lean`), counted per program as `theorem-premise.progWfB-true` / `-false`.
 //! Usage for debugging: `c03p <file.bas>` prints the three answers for one program.
 
 use rb_harness::driver::ask;
@@ -664,6 +666,23 @@ fn main() {
     let canswers = ask(&cases.iter().map(|c| format!("(proc.compare {} {} {})", c.prog, c.tables, c.code)).collect::<Vec<_>>());
     let vanswers = ask(&cases.iter().map(|c| format!("(proc.run {} {})", BUDGET, c.prog)).collect::<Vec<_>>());
     let ranswers = ask(&cases.iter().map(|c| format!("(proc.ref {} {})", FUEL, c.prog)).collect::<Vec<_>>());
+    // how many explored programs satisfy the premise of Proc.compile_correct (decided by the checker
+    // RbModel.Proc.progWfB, proved sound in Thm/ProcWf.lean)
+    let wanswers = ask(&cases.iter().map(|c| format!("(proc.wf {})", c.prog)).collect::<Vec<_>>());
+    let mut outside_shown = 0;
+    for (k, a) in wanswers.iter().enumerate() {
+        if a.starts_with("(wf true") {
+            rep.bump("theorem-premise.progWfB-true");
+        } else if a.starts_with("(wf false") {
+            rep.bump("theorem-premise.progWfB-false");
+            if outside_shown < 2 {
+                outside_shown += 1;
+                rep.sample(J::s(format!("outside the premise of Proc.compile_correct:\n{}", cases[k].text)));
+            }
+        } else {
+            rep.bump("theorem-premise.unreadable");
+        }
+    }
     let mut shrunk = 0;
     for (k, c) in cases.iter().enumerate() {
         let real = &reals[k];
